@@ -139,3 +139,109 @@ harness!(reservoir_api_prefix_k2, unwind 5, wmul_ln, {
     chk!("api_items_from_stream", v[0] <= 4 && v[1] <= 4);
     cov!("last_item_kept", v[0] == 4 || v[1] == 4);
 });
+
+// ------------------------------------------------------------------ C05 (structural form)
+// Under the contract that rand's samplers are uniform on the range they are asked for, "every
+// position is kept with probability k/n" reduces (textbook induction for Algorithm R, and the
+// geometric-gap argument for the skipping phase) to per-step conditions that are universally
+// quantified over the RNG words and hence decidable.
+
+/// `u` exactly as `add` computes it from the last 64-bit RNG word: u = 1 - gen_range(0.0..1.0).
+fn u_of_word(w: u64) -> f64 {
+    let v = f64::from_bits((w >> 12) | (1023u64 << 52)); // [1, 2)
+    1.0 - (v - 1.0)
+}
+
+/// Reservoir phase (k <= i < 4k): exactly one integer draw from exactly i+1 values; the item is stored
+/// iff the draw is < k, and then in that slot; nothing else changes.
+fn c05_reservoir_phase(k: usize) {
+    rng_reset();
+    let (mut r, i, ids, _len) = arb(k, None);
+    asm!(i + 1 < 4 * k);
+    r.add(i as u32);
+    chk!("reservoir_phase_one_integer_draw", rng_calls() == 1);
+    chk!("reservoir_phase_draws_from_i_plus_1_values", rng_last_range() == i + 1);
+    let j = rng_last_draw();
+    let v = r.reservoir();
+    for s in 0..k {
+        let expect = if j < k && s == j { i as u32 } else { ids[s] };
+        chk!("reservoir_phase_stored_iff_draw_below_k_in_that_slot", v[s] == expect);
+    }
+    cov!("kept", j < k);
+    cov!("dropped", j >= k);
+}
+harness!(c05_reservoir_phase_k1, unwind 5, wmul_ln, { c05_reservoir_phase(1) });
+harness!(c05_reservoir_phase_k2, unwind 5, wmul_ln, { c05_reservoir_phase(2) });
+harness!(c05_reservoir_phase_k3, unwind 5, wmul_ln, { c05_reservoir_phase(3) });
+
+/// The step that enters the skipping phase (i = 4k-1) and the first skipping-phase item (i = 4k):
+/// the item at the switch is not forced into the reservoir — whether it is kept is governed by a
+/// gap drawn before it, and both outcomes are possible.
+fn c05_switch(k: usize) {
+    rng_reset();
+    let i = 4 * k - 1;
+    let mut ids = [0u32; 3];
+    let mut v: Vec<u32> = Vec::with_capacity(k);
+    for s in 0..k {
+        ids[s] = s as u32;
+        v.push(s as u32);
+    }
+    // state as the reservoir phase leaves it: skip_until untouched since new()/clear()
+    let mut r = R::verif_from_parts(k, SymRng, v, i, 0);
+    r.add(100);
+    let after_last_reservoir_step: Vec<u32> = r.reservoir().clone();
+    let words_before = rng_words();
+    r.add(200);
+    let kept = r.reservoir().iter().any(|x| *x == 200);
+    chk!("switch_item_only_replaces_one_slot", r.reservoir().len() == k);
+    cov!("switch_item_can_be_skipped", !kept);
+    cov!("switch_item_can_be_kept", kept);
+    let _ = (after_last_reservoir_step, words_before);
+}
+harness!(c05_switch_k1, unwind 5, wmul_ln, { c05_switch(1) });
+harness!(c05_switch_k2, unwind 5, wmul_ln, { c05_switch(2) });
+
+/// Skipping phase (i >= 4k): an item below skip_until changes nothing and consumes no randomness; an item
+/// at/after it is written to a slot drawn from exactly k values, and the next gap is drawn: the following
+/// item is certainly accepted when u > 1/(1+p) and certainly skipped when u < 1 - p/(1-p), p = k/(i+2)
+/// (elementary bounds on ln that hold for any libm).
+fn c05_gap_phase(k: usize) {
+    rng_reset();
+    let (mut r, i, ids, _len) = arb(k, None);
+    asm!(i >= 4 * k);
+    let su = r.verif_skip_until();
+    r.add(i as u32);
+    let v = r.reservoir();
+    if i < su {
+        chk!("skipped_item_consumes_no_randomness", rng_words() == 0);
+        chk!("skipped_item_keeps_skip_until", r.verif_skip_until() == su);
+        for s in 0..k {
+            chk!("skipped_item_changes_nothing", v[s] == ids[s]);
+        }
+    } else {
+        chk!("accepted_item_one_slot_draw", rng_calls() == 1);
+        chk!("accepted_item_slot_from_k_values", rng_last_range() == k);
+        let j = rng_last_draw();
+        for s in 0..k {
+            chk!("accepted_item_written_to_drawn_slot", v[s] == if s == j { i as u32 } else { ids[s] });
+        }
+        chk!("gap_drawn_after_acceptance", rng_u64_words() == 2);
+        let su2 = r.verif_skip_until();
+        chk!("next_acceptance_not_in_the_past", su2 >= i + 1);
+        let u = u_of_word(rng_last_u64());
+        let p = (k as f64) / ((i + 2) as f64);
+        if u > 1.0 / (1.0 + p) + 1e-9 {
+            chk!("gap_zero_when_u_close_to_one", su2 == i + 1);
+        }
+        if u < 1.0 - p / (1.0 - p) - 1e-9 {
+            chk!("gap_positive_when_u_small", su2 >= i + 2);
+        }
+        cov!("next_item_accepted", su2 == i + 1);
+        cov!("next_item_skipped", su2 >= i + 2);
+    }
+    cov!("item_skipped", i < su);
+    cov!("item_accepted", i >= su);
+}
+harness!(c05_gap_phase_k1, unwind 5, wmul_ln, { c05_gap_phase(1) });
+harness!(c05_gap_phase_k2, unwind 5, wmul_ln, { c05_gap_phase(2) });
+harness!(c05_gap_phase_k3, unwind 5, wmul_ln, { c05_gap_phase(3) });
